@@ -693,7 +693,13 @@ class Interp:
             else:
                 raise Undecided(f"item assignment on {type(base).__name__}")
         elif isinstance(t, ast.Attribute):
-            self.attr_sets.append((A.dotted(t), v))  # e.g. pars.requires_grad = True: recorded, no effect on the value
+            self.attr_sets.append((A.dotted(t), v))  # e.g. pars.requires_grad = True: recorded
+            try:
+                basev = self.eval(t.value)
+            except Undecided:
+                basev = None
+            if isinstance(basev, Obj):
+                basev.attrs[t.attr] = v  # attribute store on a modelled object
         else:
             raise Undecided(f"assignment target {A.short(t, 40)}")
 
@@ -765,6 +771,10 @@ class Interp:
             raise Undecided("comparison of non-numbers")
         if a is SHAPE or b is SHAPE:
             raise Undecided("shape comparison")
+        if isinstance(a, Obj) and isinstance(b, Obj) and isinstance(op, (ast.Eq, ast.NotEq)):
+            return (a is b) == isinstance(op, ast.Eq)
+        if isinstance(a, (tuple, list, dict)) and isinstance(b, (tuple, list, dict)) and isinstance(op, (ast.Eq, ast.NotEq)):
+            return (a == b) == isinstance(op, ast.Eq)
         a, b = to_poly(a), to_poly(b)
         d = a - b
         self.thresholds_seen.append((a, type(op).__name__, b))
@@ -835,7 +845,10 @@ class Interp:
             if e.attr == "pi" and A.dotted(e) in ("np.pi", "math.pi", "numpy.pi", "jnp.pi"):
                 return Poly.atom("PI")
             if e.attr == "T":
-                return self.eval(e.value)
+                tv = self.eval(e.value)
+                if self.externals.get("__elementwise__") and isinstance(tv, (list, tuple)) and tv and all(isinstance(r_, (list, tuple)) for r_ in tv):
+                    return [list(col) for col in zip(*tv)]
+                return tv
             raise Undecided(f"attribute {A.short(e, 40)}")
         if isinstance(e, ast.BinOp):
             return self.binop(e.op, self.eval(e.left), self.eval(e.right))
@@ -1008,6 +1021,23 @@ class Interp:
                 pass
         raise Undecided(f"{what} over a non-literal iterable")
 
+    def eval_kwargs(self, keywords):
+        """Keyword actuals with **mappings expanded (a ** of an opaque value is ignored, as before)."""
+        out = {}
+        for k in keywords:
+            if k.arg is not None:
+                out[k.arg] = self.eval(k.value)
+            else:
+                try:
+                    v = self.eval(k.value)
+                except Undecided:
+                    continue
+                if isinstance(v, dict):
+                    for kk, vv in v.items():
+                        if isinstance(kk, str):
+                            out[kk] = vv
+        return out
+
     def eval_args(self, args):
         """Positional actuals with *starred sequences expanded."""
         out = []
@@ -1029,12 +1059,12 @@ class Interp:
         name = A.call_attr(e)
         if name in self.externals:
             xa = self.eval_args(e.args)
-            xk = {k.arg: self.eval(k.value) for k in e.keywords if k.arg}
+            xk = self.eval_kwargs(e.keywords)
             return self.externals[name](xa, xk)
         if isinstance(f, ast.Call):
             callee = self.eval(f)
             xa = self.eval_args(e.args)
-            xk = {k.arg: self.eval(k.value) for k in e.keywords if k.arg}
+            xk = self.eval_kwargs(e.keywords)
             if isinstance(callee, PyFunc):
                 return callee.f(xa, xk)
             if isinstance(callee, Closure):
@@ -1042,7 +1072,7 @@ class Interp:
             raise Undecided("call of a computed callee")
         if isinstance(f, ast.Name) and isinstance(self.env.get(f.id), PyFunc):
             xa = self.eval_args(e.args)
-            xk = {k.arg: self.eval(k.value) for k in e.keywords if k.arg}
+            xk = self.eval_kwargs(e.keywords)
             return self.env[f.id].f(xa, xk)
         if isinstance(f, ast.Attribute) and not (isinstance(f.value, ast.Name) and f.value.id in MODULE_NAMES):
             try:
@@ -1051,7 +1081,7 @@ class Interp:
                 recv = None
             if "." + f.attr in self.externals and recv is not None:
                 xa = self.eval_args(e.args)
-                xk = {k.arg: self.eval(k.value) for k in e.keywords if k.arg}
+                xk = self.eval_kwargs(e.keywords)
                 try:
                     return self.externals["." + f.attr](recv, xa, xk)
                 except NotHandled:
@@ -1096,6 +1126,21 @@ class Interp:
                         raise Undecided(f"set.{f.attr} of a non-collection")
                     others.append(set(v))
                 return getattr(recv, f.attr)(*others)
+            if isinstance(recv, dict) and f.attr in ("update", "clear", "copy"):
+                if f.attr == "update":
+                    for a in e.args:
+                        v = self.eval(a)
+                        if isinstance(v, dict):
+                            recv.update(v)
+                        elif isinstance(v, (list, tuple)):
+                            recv.update({k2: v2 for k2, v2 in v})
+                        else:
+                            raise Undecided("dict.update of a non-mapping")
+                    for kwn in e.keywords:
+                        if kwn.arg is not None:
+                            recv[kwn.arg] = self.eval(kwn.value)
+                    return None
+                return recv.clear() if f.attr == "clear" else dict(recv)
             if isinstance(recv, dict) and f.attr == "setdefault":
                 k = self.eval(e.args[0])
                 if k not in recv:
@@ -1108,13 +1153,15 @@ class Interp:
             if isinstance(recv, dict) and f.attr in ("get", "pop", "setdefault"):
                 k = self.eval(e.args[0])
                 if k in recv:
-                    return recv[k]
+                    return recv.pop(k) if f.attr == "pop" else recv[k]
+                if f.attr == "pop" and len(e.args) < 2:
+                    raise _PyRaise("KeyError")
                 return self.eval(e.args[1]) if len(e.args) > 1 else None
         # closures and inlined methods
         if isinstance(f, ast.Name) and isinstance(self.env.get(f.id), Closure):
             clo = self.env[f.id]
             args = self.eval_args(e.args)
-            kwargs = {k.arg: self.eval(k.value) for k in e.keywords if k.arg}
+            kwargs = self.eval_kwargs(e.keywords)
             if isinstance(clo.node, ast.Lambda):
                 sub = Interp(self.env, self.selfattrs, self.region, self.methods, self.cls_name, externals=self.externals)
                 for p, a in zip([x.arg for x in clo.node.args.args], args):
@@ -1124,11 +1171,11 @@ class Interp:
         if isinstance(f, ast.Attribute) and isinstance(f.value, ast.Name) and f.value.id == "self" and isinstance(self.selfattrs.get(self._mangle(name)), (PyFunc, Closure)):
             callee = self.selfattrs[self._mangle(name)]
             xa = self.eval_args(e.args)
-            xk = {k.arg: self.eval(k.value) for k in e.keywords if k.arg}
+            xk = self.eval_kwargs(e.keywords)
             return callee.f(xa, xk) if isinstance(callee, PyFunc) else self.call_function(callee.node, xa, xk)
         if isinstance(f, ast.Attribute) and isinstance(f.value, ast.Name) and f.value.id == "self" and name in self.methods:
             args = self.eval_args(e.args)
-            kwargs = {k.arg: self.eval(k.value) for k in e.keywords if k.arg}
+            kwargs = self.eval_kwargs(e.keywords)
             return self.call_function(self.methods[name], args, kwargs, bind_self=True)
         args = e.args
         kw = {k.arg: k.value for k in e.keywords if k.arg}
@@ -1240,6 +1287,10 @@ class Interp:
             return [(Poly.const(i), x) for i, x in enumerate(s)]
         if name == "len":
             s = ev(args[0])
+            if isinstance(s, Obj) and "__len__" in self.externals:
+                n_ = self.externals["__len__"](s)
+                if n_ is not None:
+                    return Poly.const(n_)
             if isinstance(s, (list, tuple, set, dict, str)):
                 return Poly.const(len(s))
             raise Undecided("len of a tensor")
@@ -1265,8 +1316,14 @@ class Interp:
             return self.truth(ev(args[0]))
         if name == "dict" and isinstance(f, ast.Name):
             d = dict(ev(args[0])) if args else {}
-            for k2, v2 in kw.items():
-                d[k2] = ev(v2)
+            for kwn in e.keywords:
+                if kwn.arg is None:
+                    extra = ev(kwn.value)
+                    if not isinstance(extra, dict):
+                        raise Undecided("dict(**non-dict)")
+                    d.update(extra)
+                else:
+                    d[kwn.arg] = ev(kwn.value)
             return d
         if name == "gather":
             src, idx = ev(args[0]), ev(args[1])
@@ -1320,6 +1377,13 @@ class Interp:
                 if v.is_const():
                     return Poly.const(int(v.const_value()))
             raise Undecided(f"{name}() of a symbolic value")
+        if name == "next" and isinstance(f, ast.Name) and args:
+            seq = self.iterable(ev(args[0]), "next")
+            if seq:
+                return seq[0]
+            if len(args) > 1:
+                return ev(args[1])
+            raise _PyRaise("StopIteration")
         if name == "id" and isinstance(f, ast.Name) and len(args) == 1:
             return Poly.const(id(ev(args[0])))
         if name in ("any", "all") and isinstance(f, ast.Name) and args:
